@@ -64,14 +64,24 @@ def main(argv):
       if not ctx.violations:
         print(f"replay {replay}: no violation on the current tree")
       return ctx.finish()
-    mod.run(ctx, 1)
+    # source fingerprints (harness/anchors.py): anchored functions that differ from the version the models were
+    # validated against get a larger exploration budget; this is never a violation by itself
+    import anchors
+    changed = anchors.changed(common.REPO, prop)
+    ctx.extra["anchored_source_changed_since_lock"] = changed
+    base = 1
+    if changed:
+      base = int(os.environ.get("VERIF_CHANGED_SCALE", "4"))
+      ctx.notes.append(f"{len(changed)} anchored function(s) differ from anchors.lock.json: exploration budget x{base}")
+      print(f"note: anchored source changed ({', '.join(changed[:4])}{' ...' if len(changed) > 4 else ''}); budget x{base}")
+    mod.run(ctx, base)
     broken = (not ctx.build_ok) or ctx.disagreements
     if broken and not ctx.violations:
       # search for a concrete failing input with a larger budget (oracles on the implementation)
       ctx.searching = True
       ctx.notes.append("search mode entered: " + ("proof/translation obligation broken" if not ctx.build_ok else "correspondence disagreement"))
       try:
-        mod.run(ctx, 8)
+        mod.run(ctx, 8 if base == 1 else 12)
         if hasattr(mod, "search"):
           mod.search(ctx)
       except common.DriverError:
